@@ -48,7 +48,13 @@ class ProtocolHandler:
 
         # Get method - only requests/notifications have method
         method = getattr(message, "method", None)
+
+        # Notifications (no id) never get a response, not even an error
+        is_notification = getattr(message, "id", None) is None
+
         if not method:
+            if is_notification:
+                return None, None
             # Get ID if available (not on notifications)
             msg_id = getattr(message, "id", None)
             return self.create_error_response(msg_id, -32600, "Invalid request"), None
@@ -59,6 +65,8 @@ class ProtocolHandler:
 
         handler = self._handlers.get(method)
         if not handler:
+            if is_notification:
+                return None, None
             # Get ID if available (not on notifications)
             msg_id = getattr(message, "id", None)
             return self.create_error_response(
@@ -66,9 +74,14 @@ class ProtocolHandler:
             ), None
 
         try:
-            return await handler(message, session_id)
+            response, new_session_id = await handler(message, session_id)
+            if is_notification:
+                return None, new_session_id
+            return response, new_session_id
         except Exception as e:
             logging.error(f"Handler error for {method}: {e}")
+            if is_notification:
+                return None, None
             # Get ID if available (not on notifications)
             msg_id = getattr(message, "id", None)
             return self.create_error_response(
